@@ -174,7 +174,7 @@ def s2_s3_call(ctx):
         for c, v, _ in p.conds:
             if fmt(c) == 'stats is None':
                 has = not v
-        apps = [e for e in p.flat_events() if e.kind == 'write' and e.how == 'mut:append' and e.loc == ('sub', V('stats'), ('str', 'target_allocations'))]
+        apps = [e for e in p.flat_events() if e.kind == 'write' and e.how == 'mut:append' and e.loc in (('sub', V('stats'), ('str', 'target_allocations')), ('attr', V('stats'), 'target_allocations'))]
         if has is None:
             ctx.violation('C09.S3', 'recording is decided by `stats is not None` alone', fn.site(), 'path [%s] never tests stats' % tag, key='C09.S3|record-path')
         elif has:
@@ -183,6 +183,9 @@ def s2_s3_call(ctx):
                 rec = apps[0].value[2][1]
                 ok = (rec[0] == 'call' and rec[1] == ('ext', 'UPDATED') and rec[2][0] == ('dict', ((('str', 'Date'), V('dt')),)) and rec[2][1] == w) or \
                     (rec[0] == 'dict' and flat_dict(rec) == [(('str', 'Date'), V('dt'))] + flat_dict(('dict', ((None, w),))))
+                if not ok and rec[0] == 'dict' and w[0] == 'dict':
+                    # {'Date': dt, **zero, **optimised} when the sizer got {**zero, **optimised}: the same layers behind the date
+                    ok = flat_dict(rec) == [(('str', 'Date'), V('dt'))] + flat_dict(w)
             ctx.require(ok, 'C09.S3', 'the recorded target allocation is the same full weight vector the sizer received, dated dt', apps[0].site if apps else fn.site(),
                         fmt(apps[0].value[2][1])[:200] if apps else 'no record', key='C09.S3|record')
         else:
